@@ -59,6 +59,10 @@ RULE = ("generated projects: 1-5 TOML files (includes, nested includes, diamond 
         "top-level projects sharing one parser env dict, one including what another excludes; "
         "include chains of depth 2-3 and diamonds (two children including one grandchild) with "
         "rules in the innermost file, every fourth project built through the ProjectConfig API; "
+        "regex metacharacters in directory names and variable values (`c++`, `app (beta)`, `a.b`, "
+        "`l10n+central`, `l.10n`) with near-miss siblings (`aXb`, `notes-ftl` next to `*.ftl`), "
+        "every Matcher cross-checked against an independent reading of its pattern text; on a "
+        "second object iter_reference() first, then iteration and lookups again (no state); "
         "rules whose pattern starts with a wildcard (`*.ftl`, `**/en/x.ftl`, `*-{locale}.ftl`: "
         "prefix = root); every project "
         "locale + foreign + None (+ merge base); a case is distinct by (project text, tree, "
@@ -1624,7 +1628,7 @@ def run(chk, runner_ok):
         if model:
             flush(chk, model, "PROJECT", reqs, impls, descs, final=True)
         # ---- directories reached through un-normalised spellings -------------------------------
-        for i in range(chk.n(90, 800)):
+        for i in range(chk.n(90, 600)):
             p = gen_project(rng, kind="spelled", spelled=rng.choice(["slash", "dotdot", "updir"]))
             todo = [(l, rng.random() < 0.3) for l in p.locales] + [(None, False)]
             a, b, c = run_one(chk, p, T, todo, stats)
@@ -1637,7 +1641,7 @@ def run(chk, runner_ok):
         if model:
             flush(chk, model, "PROJECT-spelled", reqs, impls, descs, final=True)
         # ---- several projects in one run -------------------------------------------------
-        for i in range(chk.n(110, 1000)):
+        for i in range(chk.n(110, 700)):
             p = gen_multi(rng)
             todo = [(l, rng.random() < 0.3) for l in p.locales] + [(None, False)]
             a, b, c = run_one(chk, p, T, todo, stats)
@@ -1671,7 +1675,7 @@ def run(chk, runner_ok):
             flush(chk, model, "PROJECT-quirk", reqs, impls, descs, final=True)
         # ---- TOML -----------------------------------------------------------------------
         treqs, timpls, tdescs = [], [], []
-        for i in range(chk.n(250, 2000)):
+        for i in range(chk.n(250, 1500)):
             p = gen_project(rng, kind="toml")
             p.files = p.files[:3]
             mutate_for_toml(rng, p)
